@@ -365,3 +365,18 @@ func TestC03Enum(t *testing.T) {
 		return SyncScenario{Sched: &c}
 	}, runC03, map[int]bool{0: true, 1: true, 3: true, 4: true, 5: true})
 }
+
+// TestC07Sched runs the schedule engine for C07: honest deliveries and Head() callers only (plus getter
+// faults), judged by the catch-up clauses - without a getter error the store reaches the newest head the
+// Syncer took, and after an error the next learned head resumes the sync.
+func TestC07Sched(t *testing.T) {
+	check(t, "C07", func(rt *rapid.T) SyncScenario {
+		sc := genSyncSched(rt)
+		for i := range sc.Actors {
+			if sc.Actors[i].Adv != "" {
+				sc.Actors[i].Adv = ""
+			}
+		}
+		return SyncScenario{Sched: &sc}
+	}, runC07)
+}
